@@ -29,6 +29,8 @@ type BlockHeaderSubscriber interface {
 type liquidBlockHeaderSubscriber struct {
 	txObservers []TXObserver
 	mu          sync.Mutex
+	// updateMu serializes Update calls; mu is released around callbacks.
+	updateMu sync.Mutex
 }
 
 func NewLiquidBlockHeaderSubscriber() *liquidBlockHeaderSubscriber {
@@ -54,10 +56,16 @@ func (h *liquidBlockHeaderSubscriber) Deregister(o TXObserver) {
 }
 
 func (h *liquidBlockHeaderSubscriber) Update(ctx context.Context, blockHeight BlockHeight) error {
+	h.updateMu.Lock()
+	defer h.updateMu.Unlock()
 	h.mu.Lock()
 	defer h.mu.Unlock()
 	for _, observer := range h.txObservers {
+		// The callback sends an event to a swap state machine whose actions
+		// call Register: never hold mu during a callback.
+		h.mu.Unlock()
 		callbacked, err := observer.Callback(ctx, blockHeight)
+		h.mu.Lock()
 		if callbacked {
 			if err == nil || errors.Is(err, swap.ErrSwapDoesNotExist) {
 				// callbacked and no error, remove observer
